@@ -6,6 +6,7 @@ import Morlock.Driver.Search
 import Morlock.Driver.Engine
 import Morlock.Driver.Uci
 import Morlock.Driver.Misc
+import Morlock.Driver.Flt
 open Morlock.Driver in
 def dispatchPure (toks : List String) : String :=
   match toks with
@@ -14,6 +15,7 @@ def dispatchPure (toks : List String) : String :=
   | "fen" :: args => fenOp args
   | "limits" :: args => limitsOp args
   | "tt" :: args => ttOp args
+  | "flt" :: args => fltOp args
   | "published" :: _ => "ok ## ok"   -- the harness compared the implementation with a published constant
   | _ => "bad-op"
 
